@@ -392,3 +392,80 @@ Proof.
   - apply state_wf_b_sound. vm_compute. reflexivity.
   - vm_compute. repeat split.
 Qed.
+
+(* ====================================================================================== *)
+(* Glue C09 <-> C02 (theories/Glue/GlueLookup.v).  The index path of the public lookups is modelled
+   twice: here (Forest/Search.v, a forest with explicit registry / index, invariant [state_wf]) and in
+   the mutation machine (Mut/Lookup.v, the [lk_*] functions of C02 on a machine state, invariant [WF],
+   which every history preserves - C01).  [to_search t] is the search state a machine state induces
+   (same forest, same index, registry keyed by the node's identity as an int).  It satisfies [state_wf]
+   whenever [WF t], and on it the two models give the same answers. *)
+From NT Require Machine WF Lookup GlueLookup.
+
+Theorem C09_agrees_with_lookup_model_state : forall t, WF.WF t -> state_wf (GlueLookup.to_search t).
+Proof. exact GlueLookup.to_search_wf. Qed.
+Print Assumptions C09_agrees_with_lookup_model_state.
+
+Theorem C09_agrees_with_lookup_model_find_all : forall t d k,
+  tree_find_all (GlueLookup.to_search t) None None (Some d) k = Ok (Lookup.lk_find_all_did_max t d k).
+Proof. exact GlueLookup.find_all_did_agrees. Qed.
+Print Assumptions C09_agrees_with_lookup_model_find_all.
+
+Theorem C09_agrees_with_lookup_model_find_all_data : forall t dat c k, Machine.calc_id (Machine.calc t) dat = Some c ->
+  tree_find_all (GlueLookup.to_search t) (Some c) None None k = Ok (Lookup.lk_find_all_did_max t c k) /\
+  Lookup.lk_find_all_data t dat = Some (Lookup.lk_find_all_did_max t c 0).
+Proof. exact GlueLookup.find_all_data_agrees. Qed.
+Print Assumptions C09_agrees_with_lookup_model_find_all_data.
+
+Theorem C09_agrees_with_lookup_model_find_first : forall t d,
+  tree_find_first (GlueLookup.to_search t) None None (Some d) None = Ok (Lookup.lk_find_first_did t d).
+Proof. exact GlueLookup.find_first_did_agrees. Qed.
+Print Assumptions C09_agrees_with_lookup_model_find_first.
+
+Theorem C09_agrees_with_lookup_model_find_first_data : forall t dat c, Machine.calc_id (Machine.calc t) dat = Some c ->
+  tree_find_first (GlueLookup.to_search t) (Some c) None None None = Ok (Lookup.lk_find_first_did t c) /\
+  Lookup.lk_find_first_data t dat = Some (Lookup.lk_find_first_did t c).
+Proof. exact GlueLookup.find_first_data_agrees. Qed.
+Print Assumptions C09_agrees_with_lookup_model_find_first_data.
+
+Theorem C09_agrees_with_lookup_model_find_first_node_id : forall t n,
+  tree_find_first (GlueLookup.to_search t) None None None (Some (Z.of_nat n)) = Ok (Lookup.lk_find_nodeid t n).
+Proof. exact GlueLookup.find_first_node_id_agrees. Qed.
+Print Assumptions C09_agrees_with_lookup_model_find_first_node_id.
+
+Theorem C09_agrees_with_lookup_model_contains : forall t k c, key_calc k = Some c ->
+  exists b, contains (GlueLookup.to_search t) k = Ok b /\ Lookup.lk_contains_key t (Some c) = Some b.
+Proof. exact GlueLookup.contains_agrees. Qed.
+Print Assumptions C09_agrees_with_lookup_model_contains.
+
+(* __getitem__, key by key ([conv_res]: Ok [n] -> Ok n, same error classes) *)
+Theorem C09_agrees_with_lookup_model_getitem_node_id : forall t n c,
+  Machine.idx_has (DInt (Z.of_nat n)) (Machine.idx t) = false ->
+  getitem (GlueLookup.to_search t) (KInt (Z.of_nat n) c) = GlueLookup.conv_res (Lookup.lk_getitem t (Lookup.LNid n (Some c))).
+Proof. exact GlueLookup.getitem_node_id_agrees. Qed.
+Print Assumptions C09_agrees_with_lookup_model_getitem_node_id.
+
+Theorem C09_agrees_with_lookup_model_getitem_int : forall t z c, (forall n, In n (Machine.reg t) -> Z.of_nat n <> z) ->
+  getitem (GlueLookup.to_search t) (KInt z c) = GlueLookup.conv_res (Lookup.lk_getitem t (Lookup.LDid (DInt z) (Some c))).
+Proof. exact GlueLookup.getitem_int_agrees. Qed.
+Print Assumptions C09_agrees_with_lookup_model_getitem_int.
+
+Theorem C09_agrees_with_lookup_model_getitem_str : forall t s c,
+  getitem (GlueLookup.to_search t) (KStr s c) = GlueLookup.conv_res (Lookup.lk_getitem t (Lookup.LDid (DStr s) (Some c))).
+Proof. exact GlueLookup.getitem_str_agrees. Qed.
+Print Assumptions C09_agrees_with_lookup_model_getitem_str.
+
+Theorem C09_agrees_with_lookup_model_getitem_data : forall t dat c, Machine.calc_id (Machine.calc t) dat = Some c ->
+  getitem (GlueLookup.to_search t) (KObj c) = GlueLookup.conv_res (Lookup.lk_getitem t (Lookup.LData dat None)).
+Proof. exact GlueLookup.getitem_data_agrees. Qed.
+Print Assumptions C09_agrees_with_lookup_model_getitem_data.
+
+Theorem C09_agrees_with_lookup_model_get_clones : forall t s add_self, WF.WF t -> In s (pre_f (Machine.forest_of t)) ->
+  node_get_clones (GlueLookup.to_search t) s add_self = Ok (Lookup.lk_get_clones t (rid s) add_self).
+Proof. exact GlueLookup.get_clones_agrees. Qed.
+Print Assumptions C09_agrees_with_lookup_model_get_clones.
+
+Theorem C09_agrees_with_lookup_model_is_clone : forall t s, WF.WF t -> In s (pre_f (Machine.forest_of t)) ->
+  node_is_clone (GlueLookup.to_search t) s = Ok (Lookup.lk_is_clone t (rid s)).
+Proof. exact GlueLookup.is_clone_agrees. Qed.
+Print Assumptions C09_agrees_with_lookup_model_is_clone.
